@@ -5,6 +5,7 @@ import (
 	"encoding/json"
 	"errors"
 	"fmt"
+	"reflect"
 	"strconv"
 	"strings"
 	"unicode/utf16"
@@ -263,6 +264,43 @@ func builtinJSONStringify(call FunctionCall) Value {
 	return stringValue(string(valueJSON))
 }
 
+// goRef names the Go pointer, map or slice that a bridged object wraps.
+type goRef struct {
+	typ     reflect.Type
+	pointer uintptr
+	length  int
+}
+
+// goReference returns what a bridged object refers to in Go. Every read of a bridged field or
+// element makes a new wrapper object, so a cycle in Go data (a struct that points to itself,
+// a []interface{} that holds itself) never shows up as the same *object twice on the stack.
+func goReference(obj *object) (goRef, bool) {
+	var value reflect.Value
+	switch bridged := obj.value.(type) {
+	case *goStructObject:
+		value = bridged.value
+	case *goArrayObject:
+		value = bridged.value
+	case *goMapObject:
+		value = bridged.value
+	case *goSliceObject:
+		value = bridged.value
+	default:
+		return goRef{}, false
+	}
+	switch value.Kind() {
+	case reflect.Ptr, reflect.Map:
+		if !value.IsNil() {
+			return goRef{typ: value.Type(), pointer: value.Pointer()}, true
+		}
+	case reflect.Slice:
+		if value.Len() > 0 {
+			return goRef{typ: value.Type(), pointer: value.Pointer(), length: value.Len()}, true
+		}
+	}
+	return goRef{}, false
+}
+
 func builtinJSONStringifyWalk(ctx builtinJSONStringifyContext, key string, holder *object) (interface{}, bool) {
 	value := holder.get(key)
 
@@ -318,9 +356,15 @@ func builtinJSONStringifyWalk(ctx builtinJSONStringifyContext, key string, holde
 	case valueObject:
 		objHolder := value.object()
 		if value := value.object(); nil != value {
+			ref, bridged := goReference(objHolder)
 			for _, obj := range ctx.stack {
 				if objHolder == obj {
 					panic(ctx.call.runtime.panicTypeError("Converting circular structure to JSON"))
+				}
+				if bridged && obj != nil {
+					if seen, ok := goReference(obj); ok && seen == ref {
+						panic(ctx.call.runtime.panicTypeError("Converting circular structure to JSON"))
+					}
 				}
 			}
 			ctx.stack = append(ctx.stack, value)
